@@ -113,6 +113,11 @@ func uncompressedPub(priv crypto.PrivKey) []byte {
 
 // Craft creates, signs and stores (on the adversary's own node) one entry.
 func (a *Adversary) Craft(kind string, ident *idp.Identity, priv crypto.PrivKey, logID string, payload []byte, next []cid.Cid, clockTime int) (*entry.Entry, error) {
+	return a.CraftRefs(kind, ident, priv, logID, payload, next, []cid.Cid{}, clockTime)
+}
+
+// CraftRefs is Craft with the entry's skip-list references (refs) chosen as well.
+func (a *Adversary) CraftRefs(kind string, ident *idp.Identity, priv crypto.PrivKey, logID string, payload []byte, next, refs []cid.Cid, clockTime int) (*entry.Entry, error) {
 	ctx := context.Background()
 	io, err := cbor.IO(&entry.Entry{}, &entry.LamportClock{})
 	if err != nil {
@@ -122,7 +127,7 @@ func (a *Adversary) Craft(kind string, ident *idp.Identity, priv crypto.PrivKey,
 		LogID:   logID,
 		Payload: payload,
 		Next:    next,
-		Refs:    []cid.Cid{},
+		Refs:    refs,
 		Clock:   entry.NewLamportClock(ident.PublicKey, clockTime),
 	}, nil, io)
 	if err != nil {
